@@ -57,6 +57,7 @@ def run(ctx):
     # ---- R2 FIFO -----------------------------------------------------------------------------------------------------------
     ctx.rule('R2', 'queue: back insertion only when no token is free, grant from the front, value_ incremented only when nobody waits', 6)
     allowed = {acq['q']: {'insert_back'}, rel['q']: {'read_front', 'remove_front', 'query'}, ACQ + '::cancel': {'scan', 'erase'}}
+    _eff, _owners = lib.effective_allowed(allowed, lib.class_call_closure(P, A, 'simgrid::kernel::activity::'))
     for u in lib.field_uses(P, queue):
         if u.kind == 'write' and u.op == 'init':
             continue
@@ -64,7 +65,8 @@ def run(ctx):
         if cls == 'query':
             ctx.holds('R2', '%s: %s' % (u.fn['q'], u.method), where(u.fn, u.line), 'query')
             continue
-        ok = cls in allowed.get(u.fn['q'], set())
+        own = _owners(u.fn['q'])      # the operations of a private helper belong to the entry points that call it
+        ok = bool(own) and all(cls in _eff.get(o, set()) for o in own)
         ctx.check(ok, 'R2', '%s: %s' % (u.fn['q'].replace('simgrid::kernel::activity::', ''), u.method or u.kind), where(u.fn, u.line),
                   'operation class %s %s' % (cls, 'allowed here' if ok else 'breaks the FIFO discipline'), key='R2|%s|%s' % (u.fn['q'].rsplit('::', 1)[-1], cls))
     v = A.view(acq)
